@@ -115,16 +115,19 @@ Record flags := { f_guard_cells : bool;      (* CellObject.remove_vertices skips
                   f_skip_valueless : bool;   (* remove_children_values skips children that have no values *)
                   f_read_empty : bool;       (* H5Reader.fetch_values accepts a zero-length dataset *)
                   f_copy_text : bool;        (* Data.copy blanks with np.full_like (works for str arrays) *)
-                  f_add_rollback : bool }.   (* Entity.__init__ detaches the child again when an attribute setter refuses *)
+                  f_add_rollback : bool;     (* Entity.__init__ detaches the child again when an attribute setter refuses *)
+                  f_write_empty_text : bool }. (* H5Writer.write_data_values can write a zero-length text array *)
 Definition as_is : flags := {| f_guard_cells := false; f_skip_valueless := false; f_read_empty := false; f_copy_text := false;
-                               f_add_rollback := false |}.
+                               f_add_rollback := false; f_write_empty_text := false |}.
 Definition repaired : flags := {| f_guard_cells := true; f_skip_valueless := true; f_read_empty := true; f_copy_text := true;
-                                  f_add_rollback := true |}.
+                                  f_add_rollback := true; f_write_empty_text := true |}.
 
 (* H5Writer.write_data_values tests values[0] of a text array: a zero-length text array cannot be written (IndexError);
    the values setter has already stored it in memory, the old dataset is already deleted *)
 Definition text_empty (k : dkind) (v : vals) : bool :=
   dkind_eqb k KText && match v with [] => true | _ => false end.
+(* ... unless the writer gives the empty dataset an explicit variable-length string type (repaired) *)
+Definition text_blocked (fl : flags) (k : dkind) (v : vals) : bool := text_empty k v && negb (f_write_empty_text fl).
 
 (* what a failing operation leaves behind is part of the model *)
 Inductive outcome := Done (o : obj) | Failed (e : err) (o : obj).
@@ -165,7 +168,7 @@ Fixpoint rcv (fl : flags) (I : list Z) (a : assoc) (n : nat) (ks : list kid) : l
                 match format_length n (kkind k) (kassoc k) v' with
                 | Err e => (k :: r, Some e)
                 | Ok v'' =>
-                    if text_empty (kkind k) v'' then (set_vals k (Some v'') :: r, Some IndexError)
+                    if text_blocked fl (kkind k) v'' then (set_vals k (Some v'') :: r, Some IndexError)
                     else let (r', e) := rcv fl I a n r in (set_vals k (Some v'') :: r', e)
                 end
             end
@@ -324,7 +327,7 @@ Definition data_copy (fl : flags) (n_new : nat) (m : option (list bool)) (k : ki
         else
         let v' := if n_new <? length v then select m v else fill_masked (ndv (kkind k)) m v in
         match format_length n_new (kkind k) (kassoc k) v' with      (* the copy's constructor runs the values setter *)
-        | Ok v'' => if text_empty (kkind k) v'' then Err IndexError     (* the copy's empty text array cannot be written *)
+        | Ok v'' => if text_blocked fl (kkind k) v'' then Err IndexError     (* the copy's empty text array cannot be written *)
                     else Ok (set_vals k0 (Some v''))
         | Err e => Err e
         end
@@ -494,7 +497,7 @@ Definition read_file (fl : flags) (o : obj) (k : kid) : rval :=
       if dkind_eqb (kkind k) KText then
         (* TextData.values getter: no length check; an empty text array never reached the file; H5Reader.fetch_values turns
            a one-entry string array into a scalar str *)
-        match v with [] => RV None | [x] => RS x | _ => RV (Some v) end
+        match v with [] => if f_write_empty_text fl then RV (Some []) else RV None | [x] => RS x | _ => RV (Some v) end
       else
       if (match v with [] => negb (f_read_empty fl) | _ => false end) then RE IndexError
       else match format_length (n_values o (kassoc k)) (kkind k) (kassoc k) v with
